@@ -717,6 +717,60 @@ func b2i(b bool) int {
 	return 0
 }
 
+// scenario (HSMS-SS): involuntary drop from Selected while an application data handler blocks the
+// generation's receive goroutine, so the old generation's teardown is SLOW (its bounded join runs
+// toward closeTimeout). The reconnect loop is running from the moment the drop is reported
+// (State()==NotConnected) — it is waiting for that teardown — so the reconnecting gauge must read
+// positive all along, until the next Selected point, where it must be zero again.
+func slowTeardownGauge(c *vh.Ctx) {
+	o := genx.DefaultOptions()
+	o.CloseTimeout = 1500 * time.Millisecond
+	s := newS(c, "slow-teardown-gauge", o, nil)
+	defer s.finish()
+	e := s.e
+	if !s.must(e.Open(5*time.Second) == nil, "open") {
+		return
+	}
+	bg := context.Background()
+	s.wait(e.Start(genx.KSyncW, bg))
+	s.quiesce(true, "before")
+	m := e.Conn.Metrics()
+	hold := make(chan struct{})
+	var rel sync.Once
+	release := func() { rel.Do(func() { close(hold) }) }
+	defer release()
+	e.HandlerHold.Store(&hold)
+	p0 := e.Peer(0)
+	_ = p0.Primary(1) // its handler blocks the receive goroutine of generation 0
+	if !s.must(waitFor(5*time.Second, func() bool { return e.HandlerCalls.Load() == 1 }), "handler entered") {
+		return
+	}
+	p0.Close() // involuntary drop; the blocked receive goroutine cannot notice, a sender does
+	cl := e.Start(genx.KSyncNW, bg)
+	s.wait(cl)
+	if !s.must(e.WaitState(hsms.NotConnectedState, 5*time.Second), "drop reported (NotConnected)") {
+		return
+	}
+	// the loop's first statement runs a goroutine switch after the state flips: a short grace, then
+	// the gauge must read positive at every instant while the old generation is still tearing down
+	time.Sleep(30 * time.Millisecond)
+	for t0 := time.Now(); time.Since(t0) < 400*time.Millisecond; time.Sleep(time.Millisecond) {
+		if st := e.Conn.State(); st != hsms.NotConnectedState {
+			break
+		}
+		if v := m.Reconnecting(); v <= 0 {
+			s.fail("reconnecting gauge not positive while a reconnect loop runs (it waits for the old generation's slow teardown)", fmt.Sprintf("value=%d state=NotConnected handler_blocked=true", v))
+			break
+		}
+	}
+	e.HandlerHold.Store(nil)
+	release()
+	if s.must(e.WaitSelected(1, 10*time.Second), "generation 1 selected") {
+		s.wait(e.Start(genx.KSyncW, bg))
+		s.quiesce(true, "after")
+	}
+}
+
 // scenario: OpenBackground against a peer whose first k dials fail: the initial-connect retry loop
 // holds the reconnecting gauge positive, is NOT a reconnect, and sends meanwhile are refused.
 func coldConnect(c *vh.Ctx, k int) {
@@ -1023,6 +1077,9 @@ func main() {
 		gatedReconnect(c, 1+r.Intn(2))
 		coldConnect(c, 1+r.Intn(2))
 		overlapLoops(c)
+		if !s1() {
+			slowTeardownGauge(c)
+		}
 		closeReopen(c)
 		if !s1() {
 			for _, v := range []bool{false, true} {
@@ -1046,5 +1103,7 @@ func main() {
 		"WithTraceTraffic off/on (matrix + random; must not change any counter), WithWriteTimeout (outcomes: write error), WithSenderQueueSize (C09 parked-* scenarios), " +
 		"WithAsyncSendErrorHandler (always installed: it is the harness's independent asyncErr count), WithLinktest* / WithT5..T8 / WithReconnectBackoff / WithCloseTimeout / WithLogger (no data counter depends on them; linktest traffic is control-only). " +
 		"Not covered: session-ID validation and decode-error handlers on the SECS-I pass")
+	c.Note("reconnecting gauge, model side: the gauge is incremented by the loop-start action LoopBegin of Hsms/Generations.v (first statement of connectLoop), which PRECEDES the wait for the previous generation: " +
+		"Publish is enabled only once that generation is joined (g_joined), so the gauge is positive throughout the wait (theorem C20_retry, example C20_gauge_positive_during_slow_teardown); e2e: scenario slow-teardown-gauge (HSMS-SS)")
 	c.Finish()
 }
